@@ -35,21 +35,21 @@ var vfCurrentItem int
 
 //verif:stub regexp.MatchString
 func vfStubMatchString(pattern string, s string) (bool, error) {
-	return vfUFBool("regexp-matches", pattern, s), nil
+	return vfBool("regexp-matches"), nil // arbitrary answer
 }
 
 //verif:stub regexp.QuoteMeta
-func vfStubQuoteMeta(s string) string { return vfUFAtom("quotemeta", s) }
+func vfStubQuoteMeta(s string) string { return "quoted" }
 
 //verif:stub strings.ReplaceAll
-func vfStubReplaceAll(s, old, new string) string { return vfUFAtom("replaceall", s, old, new) }
+func vfStubReplaceAll(s, old, new string) string { return "replaced" }
 
 //verif:stub regexp.MustCompile
 func vfStubMustCompile(expr string) *regexp.Regexp { return &regexp.Regexp{} }
 
 //verif:stub (*regexp.Regexp).ReplaceAllString
 func vfStubReplaceAllString(re *regexp.Regexp, src, repl string) string {
-	return vfUFAtom("regexp-replaceall", src, repl)
+	return "pattern"
 }
 
 //verif:stub net/http.Error
@@ -61,8 +61,8 @@ func (vfRecorder) Header() http.Header        { return nil }
 func (vfRecorder) Write(b []byte) (int, error) { return len(b), nil }
 func (vfRecorder) WriteHeader(code int)       {}
 
-func vfOperation(tag string) *openapi3.Operation {
-	switch vfLen(tag+".kind", 5) {
+func vfOperation(tag string, kinds int) *openapi3.Operation {
+	switch vfLen(tag+".kind", kinds) {
 	case 0:
 		return nil
 	case 1:
@@ -78,6 +78,10 @@ func vfOperation(tag string) *openapi3.Operation {
 	case 4:
 		op := &openapi3.Operation{}
 		op.Extensions = map[string]interface{}{"x-read-only": vfBool(tag + ".flag")}
+		return op
+	case 5:
+		op := &openapi3.Operation{}
+		op.Extensions = map[string]interface{}{"x-read-only": json.RawMessage(vfBytes(tag+".raw", 6))} // any JSON text
 		return op
 	}
 	op := &openapi3.Operation{}
@@ -103,7 +107,7 @@ func vfMarkedReadOnly(op *openapi3.Operation) bool {
 }
 
 func H_C18_decision_kernel() {
-	item := &openapi3.PathItem{Get: vfOperation("get"), Post: vfOperation("post"), Put: vfOperation("put"), Delete: vfOperation("delete")}
+	item := &openapi3.PathItem{Get: vfOperation("get", 6), Post: vfOperation("post", 6), Put: vfOperation("put", vfParam("kinds", 2)), Delete: vfOperation("delete", vfParam("kinds", 2))}
 	vfC18.items = []*openapi3.PathItem{item}
 	spec := &openapi3.T{Paths: openapi3.Paths{"/some/{param}/path": item}}
 	vfC18.matched, vfC18.status, vfC18.passed = nil, 0, false
@@ -123,9 +127,7 @@ func H_C18_decision_kernel() {
 
 	// which path item did the matchers select? Find's choice, else the regexp fallback
 	matched := vfC18.matched
-	if matched == nil && !specFails && vfUFBool("regexp-matches", vfUFAtom("fallback-pattern"), "x") {
-		matched = nil
-	}
+	_ = matched
 	if vfC18.passed {
 		vfReach("passed")
 		vfAssert(!specFails, "no-pass-without-spec")
